@@ -407,3 +407,57 @@ func (n nestingProfile) GetClaims() psatoken.IClaims {
 	}
 	return n.outer.GetClaims()
 }
+
+// ---- an extension whose optional claim group is embedded BY POINTER, with
+// pointer-receiver codec methods ----
+
+const PtrEmbName = "http://example.com/verif/ptr-embedded-on-p2"
+
+type VendorGroup struct {
+	Vendor *string `cbor:"-75300,keyasint" json:"vendor"`
+	Batch  *int64  `cbor:"-75301,keyasint,omitempty" json:"batch,omitempty"`
+}
+
+type PtrEmbClaims struct {
+	psatoken.P2Claims
+	*VendorGroup
+}
+
+func (o *PtrEmbClaims) MarshalCBOR() ([]byte, error) { return encoding.SerializeStructToCBOR(hem, o) }
+func (o *PtrEmbClaims) UnmarshalCBOR(data []byte) error {
+	return encoding.PopulateStructFromCBOR(hdm, data, o)
+}
+func (o *PtrEmbClaims) MarshalJSON() ([]byte, error) { return encoding.SerializeStructToJSON(o) }
+func (o *PtrEmbClaims) UnmarshalJSON(data []byte) error {
+	return encoding.PopulateStructFromJSON(data, o)
+}
+
+// GetVendor: missing-optional when the whole group is absent
+func (o *PtrEmbClaims) GetVendor() (string, error) {
+	if o.VendorGroup == nil {
+		return "", psatoken.ErrMissingOptional
+	}
+	if o.Vendor == nil {
+		return "", psatoken.ErrMissingMandatory
+	}
+	return *o.Vendor, nil
+}
+
+func (o *PtrEmbClaims) Validate() error {
+	if err := psatoken.ValidateClaims(o); err != nil {
+		return err
+	}
+	return psatoken.FilterError(o.GetVendor())
+}
+
+func newPtrEmbClaims() *PtrEmbClaims {
+	p := eat.Profile{}
+	if err := p.Set(PtrEmbName); err != nil {
+		panic(err)
+	}
+	return &PtrEmbClaims{P2Claims: psatoken.P2Claims{
+		Profile:          &p,
+		SwComponents:     &psatoken.SwComponents[*psatoken.SwComponent]{},
+		CanonicalProfile: PtrEmbName,
+	}}
+}
